@@ -46,7 +46,8 @@ partial def dim : DExpr → Nat
   | mixture parts _ _ => match parts with | p :: _ => dim p | [] => 0
   | logT _ inner _ => dim inner
 
-/-- the bounds in force (`lower_bounds`, `upper_bounds` attributes) -/
+/-- the bounds of the object itself (`lower_bounds`, `upper_bounds` attributes); those of an
+    additive distribution are collapsed from the bounds in force in its parts -/
 partial def box : DExpr → Box
   | stdNormal _ b => b
   | normalDiag _ _ _ b => b
@@ -55,13 +56,27 @@ partial def box : DExpr → Box
   | himmelblau _ b => b
   | uniform b => b
   | additive parts own =>
-      -- collapse_bounds: intersection of the own box with every part's box
+      -- collapse_bounds: intersection of the own box with the bounds in force in every part
       parts.foldl (fun acc p =>
-        let pb := box p
+        let pb := ebox p
         ⟨collapseOpt vmax acc.lb pb.lb, collapseOpt vmin acc.ub pb.ub⟩) own
   | composite _ own => own
   | mixture _ _ b => b
   | logT _ _ b => b
+
+/-- the bounds in force for every coordinate: a composite keeps bounds in its blocks, at any depth;
+    they are stacked (infinite where a block has none) and intersected with the own box; a side on
+    which no coordinate is bounded is `none` -/
+partial def ebox : DExpr → Box
+  | composite parts own =>
+      let lows := parts.map (fun p => match (ebox p).lb with | some l => l | none => FVec.const (dim p) (0.0 - finf))
+      let ups := parts.map (fun p => match (ebox p).ub with | some u => u | none => FVec.const (dim p) finf)
+      let lo : FVec := ⟨lows.foldl (fun acc v => acc ++ v.a) #[]⟩
+      let up : FVec := ⟨ups.foldl (fun acc v => acc ++ v.a) #[]⟩
+      let lo := match own.lb with | some l => vmax lo l | none => lo
+      let up := match own.ub with | some u => vmin up u | none => up
+      ⟨if lo.anyP (fun x => x > 0.0 - finf) then some lo else none, if up.anyP (fun x => x < finf) then some up else none⟩
+  | e => box e
 end
 
 def slice (x : FVec) (start len : Nat) : FVec := ⟨x.a.extract start (start + len)⟩
@@ -154,7 +169,8 @@ partial def correct : DExpr → PS FVec → PS FVec
       | none, none =>
           let qs := splitBlocks parts s1.q
           let ps := splitBlocks parts s1.p
-          let rs := (List.zip parts (List.zip qs ps)).map (fun t => (box t.1).reflect ⟨t.2.1, t.2.2⟩)
+          -- every block corrects its own part (a block can be a composite itself)
+          let rs := (List.zip parts (List.zip qs ps)).map (fun t => correct t.1 ⟨t.2.1, t.2.2⟩)
           ⟨concat (rs.map (·.q)), concat (rs.map (·.p))⟩
       | _, _ => s1
   | e, s => (box e).reflect s
